@@ -307,6 +307,8 @@ type compTable struct {
 	nilSrc   bool
 	where    map[string]string
 	problems []string
+	fns      map[*ssa.Function]bool // the functions the selection happens in
+	srcs     []compSrc
 }
 
 // nameFacts returns the constant strings s such that "x == s" holds at b.
@@ -334,26 +336,105 @@ func concreteOfMakeIface(v ssa.Value) (string, bool) {
 	return typeKey(mi.X.Type()), true
 }
 
-func readerCompTable(P *Program, s *readFileShape) *compTable {
-	t := &compTable{byName: map[string]string{}, where: map[string]string{}}
-	for _, src := range phiSources(s.decompress.Call.Value) {
+// compSrc is one origin of a compressor value.
+type compSrc struct {
+	ty    string   // concrete type put in the interface
+	names []string // codec names known to equal the selector where it is created
+	isNil bool
+	mi    *ssa.MakeInterface
+	prob  string
+	via   []*ssa.Call // calls of selector helpers the value was returned through
+}
+
+// compSources lists where a compressor value comes from, looking through
+// phis and through module functions that return it (a selector helper). A
+// helper's returns with a definitely non-nil error are not origins: the
+// caller must then have checked the error (see errNilAtUse).
+func compSources(P *Program, v ssa.Value, via []*ssa.Call, fns map[*ssa.Function]bool) []compSrc {
+	var out []compSrc
+	for _, src := range phiSources(v) {
 		if isNilConst(src) {
+			out = append(out, compSrc{isNil: true, via: via})
+			continue
+		}
+		if mi, ok := src.(*ssa.MakeInterface); ok {
+			names, _ := stringEqAt(mi.Block())
+			out = append(out, compSrc{ty: typeKey(mi.X.Type()), names: names, mi: mi, via: via})
+			continue
+		}
+		var call *ssa.Call
+		idx := 0
+		if ex, ok := src.(*ssa.Extract); ok {
+			call, _ = ex.Tuple.(*ssa.Call)
+			idx = ex.Index
+		} else if cl, ok := src.(*ssa.Call); ok {
+			call = cl
+		}
+		if call != nil && len(via) < 2 {
+			if g := call.Call.StaticCallee(); g != nil && P.isModuleFunc(g) && g.Blocks != nil {
+				fns[g] = true
+				ei := errorResultIndex(g.Signature)
+				for _, b := range g.Blocks {
+					if b == g.Recover {
+						continue
+					}
+					ret, ok := b.Instrs[len(b.Instrs)-1].(*ssa.Return)
+					if !ok {
+						continue
+					}
+					rs := resolvedResults(ret)
+					if ei >= 0 {
+						if isFreshError(rs[ei]) {
+							continue
+						}
+						if nn, _ := knownNonNil(b, rs[ei]); nn {
+							continue
+						}
+					}
+					out = append(out, compSources(P, rs[idx], append(append([]*ssa.Call{}, via...), call), fns)...)
+				}
+				continue
+			}
+		}
+		out = append(out, compSrc{prob: src.String(), via: via})
+	}
+	return out
+}
+
+// errNilAtUse: every selector-helper call the source came through has its
+// error known nil at block b.
+func errNilAtUse(src compSrc, b *ssa.BasicBlock) bool {
+	if len(src.via) == 0 {
+		return true
+	}
+	call := src.via[0]
+	ev := errValueOfCall(call)
+	if ev == nil {
+		return true
+	}
+	_, isNil := knownNonNil(b, ev)
+	return isNil
+}
+
+func readerCompTable(P *Program, s *readFileShape) *compTable {
+	t := &compTable{byName: map[string]string{}, where: map[string]string{}, fns: map[*ssa.Function]bool{s.fn: true}}
+	for _, src := range compSources(P, s.decompress.Call.Value, nil, t.fns) {
+		switch {
+		case src.isNil:
 			t.nilSrc = true
-			continue
-		}
-		ty, ok := concreteOfMakeIface(src)
-		if !ok {
-			t.problems = append(t.problems, "decoder may come from "+src.String())
-			continue
-		}
-		names, _ := stringEqAt(src.(*ssa.MakeInterface).Block())
-		if len(names) == 0 {
-			t.defaults = append(t.defaults, ty)
-			continue
-		}
-		for _, n := range names {
-			t.byName[n] = ty
-			t.where[n] = P.pos(src.Pos())
+		case src.prob != "":
+			t.problems = append(t.problems, "decoder may come from "+src.prob)
+		case !errNilAtUse(src, s.decompress.Block()):
+			t.problems = append(t.problems, "a decoder returned by a helper is used where the helper's error is not known to be nil")
+		case len(src.names) == 0:
+			t.defaults = append(t.defaults, src.ty)
+			t.srcs = append(t.srcs, src)
+		default:
+			for _, n := range src.names {
+				t.byName[n] = src.ty
+				t.where[n] = P.pos(src.mi.Pos())
+			}
+			t.srcs = append(t.srcs, src)
 		}
 	}
 	return t
@@ -364,29 +445,43 @@ func writerCompTable(P *Program, iface types.Type) (*compTable, *ssa.Function) {
 	if fn == nil {
 		return nil, nil
 	}
-	t := &compTable{byName: map[string]string{}, where: map[string]string{}}
+	t := &compTable{byName: map[string]string{}, where: map[string]string{}, fns: map[*ssa.Function]bool{fn: true}}
+	def, poss := successReturns(fn)
 	for _, b := range fn.Blocks {
 		for _, in := range b.Instrs {
 			st, ok := in.(*ssa.Store)
 			if !ok || !types.Identical(st.Val.Type(), iface) {
 				continue
 			}
-			for _, src := range phiSources(st.Val) {
-				if isNilConst(src) {
+			for _, src := range compSources(P, st.Val, nil, t.fns) {
+				switch {
+				case src.isNil:
 					t.nilSrc = true
 					continue
-				}
-				ty, ok := concreteOfMakeIface(src)
-				if !ok {
-					t.problems = append(t.problems, "compressor may come from "+src.String())
+				case src.prob != "":
+					t.problems = append(t.problems, "compressor may come from "+src.prob)
 					continue
 				}
-				names, _ := stringEqAt(b)
+				// a compressor handed back by a helper counts only where the writer can succeed: there the helper's error must be nil
+				okErr := true
+				for _, r := range append(append([]*ssa.Return{}, def...), poss...) {
+					if !errNilAtUse(src, r.Block()) {
+						okErr = false
+					}
+				}
+				if !okErr {
+					t.problems = append(t.problems, "a compressor returned by a helper is kept although the helper's error is not known to be nil when the writer succeeds")
+					continue
+				}
+				names := src.names
+				if len(src.via) == 0 {
+					names, _ = stringEqAt(b)
+				}
 				if len(names) == 0 {
-					t.defaults = append(t.defaults, ty)
+					t.defaults = append(t.defaults, src.ty)
 				}
 				for _, n := range names {
-					t.byName[n] = ty
+					t.byName[n] = src.ty
 					t.where[n] = P.pos(st.Pos())
 				}
 			}
@@ -468,11 +563,14 @@ func ruleCTAgree(c *Ctx, s *readFileShape) {
 	// avro.codec lookup, the decompress call is reachable only through one of
 	// the guarded sources.
 	var lk *ssa.Lookup
-	for _, b := range s.fn.Blocks {
-		for _, in := range b.Instrs {
-			if l, ok := in.(*ssa.Lookup); ok && l.CommaOk {
-				if k, ok := constString(l.Index); ok && k == "avro.codec" {
-					lk = l
+	var lkFn *ssa.Function
+	for g := range rt.fns {
+		for _, b := range g.Blocks {
+			for _, in := range b.Instrs {
+				if l, ok := in.(*ssa.Lookup); ok && l.CommaOk {
+					if k, ok := constString(l.Index); ok && k == "avro.codec" {
+						lk, lkFn = l, g
+					}
 				}
 			}
 		}
@@ -484,20 +582,37 @@ func ruleCTAgree(c *Ctx, s *readFileShape) {
 			if iff, ok := r.(*ssa.If); ok {
 				found = iff.Block().Succs[0]
 			}
+			if not, ok := r.(*ssa.UnOp); ok && not.Op == token.NOT {
+				for _, rr := range referrersOf(not) {
+					if iff, ok := rr.(*ssa.If); ok {
+						found = iff.Block().Succs[1]
+					}
+				}
+			}
 		}
 		stop := map[*ssa.BasicBlock]bool{}
-		for _, src := range phiSources(s.decompress.Call.Value) {
-			if mi, ok := src.(*ssa.MakeInterface); ok {
-				if names, _ := stringEqAt(mi.Block()); len(names) > 0 {
-					stop[mi.Block()] = true
-				}
+		for _, src := range rt.srcs {
+			if len(src.names) > 0 {
+				stop[src.mi.Block()] = true
 			}
 		}
 		if found == nil {
 			c.Unk(fnKey(s.fn)+"/unknown-codec", P.pos(lk.Pos()), "the ok result of the avro.codec lookup is not a branch condition")
 		} else {
 			reach := reachableFrom(found, stop)
-			c.Check(!reach[s.decompress.Block()], fnKey(s.fn)+"/unknown-codec", P.pos(lk.Pos()),
+			bad := false
+			if lkFn == s.fn {
+				bad = reach[s.decompress.Block()]
+			} else {
+				// the selection lives in a helper: none of its possibly-successful returns may be reached
+				def, poss := successReturns(lkFn)
+				for _, r := range append(def, poss...) {
+					if reach[r.Block()] && !stop[r.Block()] {
+						bad = true
+					}
+				}
+			}
+			c.Check(!bad, fnKey(s.fn)+"/unknown-codec", P.pos(lk.Pos()),
 				"with a codec entry present, blocks are decoded only after one of the recognised names matched (every other path returns an error)",
 				"with a codec entry present but not recognised, control can still reach the block decoder")
 		}
@@ -600,15 +715,69 @@ func implementations(P *Program, iface *types.Named) []types.Type {
 
 // ---------- OD-SYNC
 
+// syncReadFull finds, in fn, the io.ReadFull whose buffer is a slice of a
+// local [16]byte.
+func syncReadFull(fn *ssa.Function) *ssa.Call {
+	var out *ssa.Call
+	for _, cs := range callsIn(fn) {
+		if cs.Static == nil || qualName(cs.Static) != "io.ReadFull" || cs.Value() == nil {
+			continue
+		}
+		if sl, ok := cs.Common.Args[1].(*ssa.Slice); ok {
+			if a, ok := sl.X.(*ssa.Alloc); ok {
+				if at, ok := a.Type().Underlying().(*types.Pointer).Elem().Underlying().(*types.Array); ok && at.Len() == 16 {
+					out = cs.Value()
+				}
+			}
+		}
+	}
+	return out
+}
+
+// syncFacts: among facts, is the marker read known to have succeeded, and are
+// the 16 bytes read known equal to a value accepted by isWant?
+func syncFacts(facts []Fact, rf *ssa.Call, isWant func(ssa.Value) bool) (okErr, okEq bool) {
+	sl := rf.Call.Args[1].(*ssa.Slice)
+	sigAlloc := sl.X.(*ssa.Alloc)
+	rfErr := errValueOfCall(rf)
+	for _, f := range facts {
+		cmp, ok := asCmp(f.Cond, f.Truth)
+		if !ok || cmp.Op != token.EQL {
+			continue
+		}
+		if cmp.X == rfErr && isNilConst(cmp.Y) || cmp.Y == rfErr && isNilConst(cmp.X) {
+			okErr = true
+		}
+		isSig := func(v ssa.Value) bool {
+			u, ok := v.(*ssa.UnOp)
+			return ok && u.Op == token.MUL && u.X == ssa.Value(sigAlloc) && dominatesInstr(rf, u)
+		}
+		if isSig(cmp.X) && isWant(cmp.Y) || isSig(cmp.Y) && isWant(cmp.X) {
+			okEq = true
+		}
+	}
+	return
+}
+
 func ruleODSync(c *Ctx, s *readFileShape) {
 	c.Rule("OD-SYNC", "another block is read only after 16 bytes were read in full and found equal to the header's sync marker", 1)
 	P := c.P
-	if !c.Anchor(s.outer != nil && s.syncRF != nil && s.fhAlloc != nil, "block loop, sync ReadFull, header local in ReadFile") {
+	// the marker check may sit in ReadFile's loop or in a helper called from it
+	var helperCall *ssa.Call
+	rf := s.syncRF
+	if rf == nil && s.fn != nil && s.outer != nil {
+		for _, cs := range callsIn(s.fn) {
+			if cs.Static != nil && P.isModuleFunc(cs.Static) && cs.Value() != nil && s.outer.Blocks[cs.Block] && errorResultIndex(cs.Static.Signature) >= 0 {
+				if h := syncReadFull(cs.Static); h != nil {
+					helperCall, rf = cs.Value(), h
+				}
+			}
+		}
+	}
+	if !c.Anchor(s.outer != nil && rf != nil && s.fhAlloc != nil, "block loop, sync ReadFull, header local in ReadFile") {
 		return
 	}
-	sl := s.syncRF.Call.Args[1].(*ssa.Slice)
-	sigAlloc := sl.X.(*ssa.Alloc)
-	rfErr := errValueOfCall(s.syncRF)
+	sl := rf.Call.Args[1].(*ssa.Slice)
 	// header local must be written exactly once (from the header reader)
 	nStores := 0
 	for _, r := range referrersOf(s.fhAlloc) {
@@ -616,44 +785,73 @@ func ruleODSync(c *Ctx, s *readFileShape) {
 			nStores++
 		}
 	}
+	isSync := func(v ssa.Value) bool {
+		u, ok := v.(*ssa.UnOp)
+		if !ok || u.Op != token.MUL {
+			return false
+		}
+		fa, ok := u.X.(*ssa.FieldAddr)
+		return ok && fa.X == s.fhAlloc && fieldName(fa.X.Type(), fa.Field) == "Sync"
+	}
+	// with a helper: its successes need both facts about its own parameter, and the loop needs its success
+	helperOK, helperWhy := true, ""
+	var wantParam *ssa.Parameter
+	if helperCall != nil {
+		h := helperCall.Call.StaticCallee()
+		def, poss := successReturns(h)
+		if len(def)+len(poss) == 0 {
+			helperOK, helperWhy = false, "the marker-checking helper has no success return"
+		}
+		for _, r := range append(def, poss...) {
+			okErr, okEq := syncFacts(factsAt(r.Block()), rf, func(v ssa.Value) bool {
+				p, isP := v.(*ssa.Parameter)
+				if isP && (wantParam == nil || wantParam == p) {
+					wantParam = p
+					return true
+				}
+				return false
+			})
+			if !okErr {
+				helperOK, helperWhy = false, "the helper can succeed without a successful full read of the 16-byte marker"
+			} else if !okEq {
+				helperOK, helperWhy = false, "the helper can succeed without the 16 bytes read having been found equal to the marker it is given"
+			}
+		}
+		if helperOK {
+			okArg := false
+			for i, prm := range h.Params {
+				if prm == wantParam && i < len(helperCall.Call.Args) && isSync(helperCall.Call.Args[i]) {
+					okArg = true
+				}
+			}
+			if !okArg {
+				helperOK, helperWhy = false, "the marker handed to the helper is not the header's Sync field"
+			}
+		}
+	}
 	for i, la := range s.outer.Latches {
 		key := fmt.Sprintf("%s/block-loop-backedge#%d", fnKey(s.fn), i+1)
 		okFull := sl.Low == nil && sl.High == nil
-		okErr, okEq := false, false
-		for _, f := range factsOnEdge(la, s.outer.Header) {
-			cmp, ok := asCmp(f.Cond, f.Truth)
-			if !ok {
-				continue
-			}
-			if cmp.Op == token.EQL && (cmp.X == rfErr && isNilConst(cmp.Y) || cmp.Y == rfErr && isNilConst(cmp.X)) {
-				okErr = true
-			}
-			if cmp.Op == token.EQL {
-				a, b := cmp.X, cmp.Y
-				isSig := func(v ssa.Value) bool {
-					u, ok := v.(*ssa.UnOp)
-					return ok && u.Op == token.MUL && u.X == sigAlloc && dominatesInstr(s.syncRF, u)
-				}
-				isSync := func(v ssa.Value) bool {
-					u, ok := v.(*ssa.UnOp)
-					if !ok || u.Op != token.MUL {
-						return false
-					}
-					fa, ok := u.X.(*ssa.FieldAddr)
-					return ok && fa.X == s.fhAlloc && fieldName(fa.X.Type(), fa.Field) == "Sync"
-				}
-				if isSig(a) && isSync(b) || isSig(b) && isSync(a) {
-					okEq = true
+		var okErr, okEq bool
+		if helperCall == nil {
+			okErr, okEq = syncFacts(factsOnEdge(la, s.outer.Header), rf, isSync)
+		} else {
+			hErr := errValueOfCall(helperCall)
+			for _, f := range factsOnEdge(la, s.outer.Header) {
+				if cmp, ok := asCmp(f.Cond, f.Truth); ok && cmp.Op == token.EQL && (cmp.X == hErr && isNilConst(cmp.Y) || cmp.Y == hErr && isNilConst(cmp.X)) {
+					okErr, okEq = true, true
 				}
 			}
 		}
 		switch {
 		case !okFull:
-			c.Bad(key, P.pos(s.syncRF.Pos()), "the sync marker is read into a sub-slice of the 16-byte buffer")
+			c.Bad(key, P.pos(rf.Pos()), "the sync marker is read into a sub-slice of the 16-byte buffer")
 		case !okErr:
 			c.Bad(key, P.pos(la.Instrs[len(la.Instrs)-1].Pos()), "the block loop can continue without a successful full read of the 16-byte marker")
 		case !okEq:
 			c.Bad(key, P.pos(la.Instrs[len(la.Instrs)-1].Pos()), "the block loop can continue without the equal edge of a comparison of the 16 bytes read with the header's Sync field")
+		case !helperOK:
+			c.Bad(key, P.pos(helperCall.Pos()), helperWhy)
 		case nStores != 1:
 			c.Bad(key, P.pos(s.fhAlloc.Pos()), "the header local is assigned more than once; the Sync compared may not be the header's")
 		default:
@@ -841,23 +1039,49 @@ func ruleODLenFlow(c *Ctx, s *readFileShape) {
 	key := fnKey(s.fn) + "/payload-buffer"
 	okAll := dataLen != nil
 	var why []string
-	for _, src := range phiSources(s.payloadRF.Call.Args[1]) {
-		switch x := src.(type) {
-		case *ssa.MakeSlice:
-			if stripConv(x.Len) != dataLen {
+	var lenIs func(v ssa.Value, want func(ssa.Value) bool, depth int)
+	lenIs = func(v ssa.Value, want func(ssa.Value) bool, depth int) {
+		for _, src := range phiSources(v) {
+			switch x := src.(type) {
+			case *ssa.MakeSlice:
+				if !want(stripConv(x.Len)) {
+					okAll = false
+					why = append(why, "make with a length other than the declared one")
+				}
+			case *ssa.Slice:
+				if x.Low != nil || x.High == nil || !want(stripConv(x.High)) {
+					okAll = false
+					why = append(why, "re-slice to a length other than the declared one")
+				}
+			case *ssa.Call:
+				// a sizing helper: every slice it returns must have the length it is given
+				h := x.Call.StaticCallee()
+				if h == nil || !P.isModuleFunc(h) || h.Blocks == nil || depth > 1 || h.Signature.Results().Len() != 1 {
+					okAll = false
+					why = append(why, "buffer from "+src.String())
+					continue
+				}
+				var lenParam *ssa.Parameter
+				for i, prm := range h.Params {
+					if i < len(x.Call.Args) && want(stripConv(x.Call.Args[i])) {
+						lenParam = prm
+					}
+				}
+				if lenParam == nil {
+					okAll = false
+					why = append(why, "the sizing helper "+h.Name()+" is not given the declared length")
+					continue
+				}
+				for _, r := range returnsOf(h) {
+					lenIs(resolvedResults(r)[0], func(v ssa.Value) bool { return v == ssa.Value(lenParam) }, depth+1)
+				}
+			default:
 				okAll = false
-				why = append(why, "make with a length other than the declared one")
+				why = append(why, "buffer from "+src.String())
 			}
-		case *ssa.Slice:
-			if x.Low != nil || x.High == nil || stripConv(x.High) != dataLen {
-				okAll = false
-				why = append(why, "re-slice to a length other than the declared one")
-			}
-		default:
-			okAll = false
-			why = append(why, "buffer from "+src.String())
 		}
 	}
+	lenIs(s.payloadRF.Call.Args[1], func(v ssa.Value) bool { return v == ssa.Value(dataLen) }, 0)
 	c.Check(okAll, key, P.pos(s.payloadRF.Pos()), "every buffer reaching io.ReadFull is make([]byte, dataLength) or buf[:dataLength] of the second varint of the block header", strings.Join(why, "; "))
 
 	c.Rule("OD-FLOW", "the bytes read are the bytes decompressed, the bytes decoded and the record delivered", 4)
